@@ -36,7 +36,10 @@ ObsChecks(exp, o) ==
 
 QueryChecks(t, o) ==
   << <<"C08.query.total-bonded=sum", o.total = TotalBonded(t) /\ \A d \in Denoms : o.totalBy[d] = BondedOf(t, d)>>,
-     <<"C08.query.withdrawable=payable", \A u \in Users, d \in Denoms : o.withdrawable[u][d] = Payable(t, u, d)>> >>
+     <<"C08.query.withdrawable=payable", \A u \in Users, d \in Denoms : o.withdrawable[u][d] = Payable(t, u, d)>>,
+     \* the pending unbondings read page by page are the pending unbondings (up to the 30 the suite reads)
+     <<"C08.query.unbonding-pages=all-records",
+        \A u \in Users, d \in Denoms : Len(o.unb[u][d].recs) < 30 => o.unb[u][d].paged = o.unb[u][d].recs>> >>
 
 \* beyond the listed properties: the bonding weights the lair reports (the fee distributor splits an epoch by them)
 \* never add up to more than the global weight, and the shares never to more than 100 %.  Names starting with "X." are
